@@ -861,11 +861,15 @@ func (p *Parser) walkType(u types.Universe, useName *types.Name, in gotypes.Type
 		// If the underlying type didn't already add methods, add them.
 		// (Interface types will have already added methods.)
 		if len(out.Methods) == 0 {
-			for i := 0; i < t.NumMethods(); i++ {
+			// Like the members, the methods are those of the generic
+			// declaration itself, not of whichever instantiation of it
+			// happens to be seen first.
+			decl := t.Origin()
+			for i := 0; i < decl.NumMethods(); i++ {
 				if out.Methods == nil {
 					out.Methods = map[string]*types.Type{}
 				}
-				method := t.Method(i)
+				method := decl.Method(i)
 				name := goNameToName(method.String())
 				mt := p.walkType(u, &name, method.Type())
 				mt.CommentLines = p.docComment(method.Pos())
